@@ -889,6 +889,150 @@ def st_tls_case(draw: st.DrawFn, tier: str) -> dict:
     }
 
 
+# ----------------------------------------------------------------------------------------------
+# layer "iter-errors": the whole-iterator budget of iter_received_packets(timeout=T) when some of the frames are
+# malformed: the parse error is raised out of next()/anext(), the consumer catches it and goes on with the SAME iterator
+# (legal).  The time waited for a frame that turned out to be malformed is part of the budget like any other wait.
+
+_BAD_LINE = b"\xff\xfe\n"  # not ASCII: StringLineSerializer() reports a parse error for this frame
+
+
+def _iter_errors_model(case: dict) -> tuple[list[tuple], bool]:
+    budget = float(case["timeout"])
+    now = 0.0
+    out: list[tuple] = []
+    for ready, kind in case["events"]:
+        wait = max(0.0, ready - now)
+        if wait > 0 and _tie(wait, budget):
+            return out, True
+        if wait > budget:
+            break
+        now += wait
+        budget -= wait
+        out.append((kind, now))
+    out.append(("stop", now + budget))
+    return out, False
+
+
+async def _iter_errors_async(case: dict) -> list[tuple]:
+    import asyncio
+
+    from easynetwork.clients.async_tcp import AsyncTCPNetworkClient
+    from easynetwork.exceptions import StreamProtocolParseError
+
+    from ..memtransports import MemStreamTransport, VerifBackend
+
+    loop = asyncio.get_running_loop()
+    clock = types.SimpleNamespace(now=0.0, perf_counter=loop.time)
+    backend = VerifBackend()
+    mem = MemStreamTransport(backend)
+    backend.connect_transports.append(mem)
+    got: list[tuple] = []
+    with virtual_clock(clock):  # type: ignore[arg-type]
+        client = AsyncTCPNetworkClient(("localhost", 9000), StreamProtocol(StringLineSerializer()), backend)
+        await client.wait_connected()
+        t0 = loop.time()
+        for i, (ready, kind) in enumerate(case["events"]):
+            loop.call_at(t0 + ready, mem.feed, _BAD_LINE if kind == "bad" else f"pkt-{i}\n".encode())
+        it = client.iter_received_packets(timeout=float(case["timeout"]))
+        try:
+            while len(got) <= len(case["events"]) + 2:
+                try:
+                    await anext(it)
+                except StopAsyncIteration:
+                    got.append(("stop", loop.time() - t0))
+                    break
+                except StreamProtocolParseError:
+                    got.append(("bad", loop.time() - t0))
+                else:
+                    got.append(("ok", loop.time() - t0))
+        finally:
+            await client.aclose()
+    return got
+
+
+def _iter_errors_sync(case: dict) -> list[tuple]:
+    from easynetwork.exceptions import StreamProtocolParseError
+
+    world = World()
+    sock = PeeredFakeSocket(world, socket.SOCK_STREAM)
+    got: list[tuple] = []
+    try:
+        for i, (ready, kind) in enumerate(case["events"]):
+            world.at(ready, lambda i=i, kind=kind: sock.env_arrive(_BAD_LINE if kind == "bad" else f"pkt-{i}\n".encode()))
+        world.run_due()
+        factory = make_selector_factory(world, sock)
+        with virtual_clock(world), _patched_default_selector(factory):
+            client = TCPNetworkClient(sock, StreamProtocol(StringLineSerializer()), retry_interval=float(case["retry_interval"]))
+            it = client.iter_received_packets(timeout=float(case["timeout"]))
+            try:
+                while len(got) <= len(case["events"]) + 2:
+                    try:
+                        next(it)
+                    except StopIteration:
+                        got.append(("stop", world.now))
+                        break
+                    except StreamProtocolParseError:
+                        got.append(("bad", world.now))
+                    else:
+                        got.append(("ok", world.now))
+            except (HarnessHang, SpinGuard) as exc:
+                raise Violation("hang", f"iterator blocks: {exc}") from exc
+    finally:
+        sock.close()
+    return got
+
+
+def run_iter_errors_case(case: dict) -> Outcome:
+    from ..vloop import Deadlock, run_virtual
+
+    exp, tie = _iter_errors_model(case)
+    if tie:
+        return Outcome(classes=("tie-discarded",))
+    if case["kind"] == "async":
+        try:
+            got = run_virtual(_iter_errors_async, case)
+        except Deadlock as exc:
+            raise Violation("hang", f"asynchronous iterator never ends: {exc}") from exc
+    else:
+        got = _iter_errors_sync(case)
+    detail = {"client": case["kind"], "timeout": case["timeout"], "events": case["events"], "observed": got, "expected": exp}
+    for a, b in zip(got, exp):
+        if a[0] != b[0] or abs(a[1] - b[1]) > 1e-6:
+            if b[0] == "stop" and (a[0] != "stop" or a[1] > b[1]):
+                kind = "overrun"
+            elif a[0] == "stop":
+                kind = "gave-up-early"
+            else:
+                kind = "iterator-budget"
+            raise Violation(
+                kind,
+                f"{case['kind']} iter_received_packets(timeout={case['timeout']}) with malformed frames in the stream: observed {a}, the whole-iterator budget gives {b}",
+                **detail,
+            )
+    if len(got) != len(exp):
+        raise Violation("iterator-budget", f"observed {len(got)} events, expected {len(exp)}", **detail)
+    bad_waited = any(k == "bad" and t > 0 for k, t in exp)
+    classes = [f"client-{case['kind']}", "bad-frame-waited-for" if bad_waited else "no-wait-for-bad-frame"]
+    return Outcome(nontrivial=bad_waited and len(exp) >= 3, classes=tuple(classes))
+
+
+@st.composite
+def st_iter_errors_case(draw: st.DrawFn, tier: str) -> dict:
+    n = draw(st.integers(1, 5))
+    events = []
+    t = 0.0
+    for i in range(n):
+        t += draw(st.sampled_from([0.0, 0.25, 0.5, 0.75, 1.25])) + 0.001 * (i + 1)
+        events.append([t, draw(st.sampled_from(["ok", "bad", "bad"]))])
+    return {
+        "kind": draw(st.sampled_from(["sync", "async"])),
+        "events": events,
+        "timeout": draw(st.sampled_from([1, 2, 3, 5])),
+        "retry_interval": draw(st.sampled_from([0.3, 1.0, 7.0])),
+    }
+
+
 
 CHECK = Check(
     id="C11",
@@ -912,6 +1056,7 @@ CHECK = Check(
         Layer("lock", st_lock_case, run_lock_case, {"quick": 400, "thorough": 1500}),
         Layer("async-iter", st_async_iter_case, run_async_iter_case, {"quick": 800, "thorough": 4000}),
         Layer("tls", st_tls_case, run_tls_case, {"quick": 300, "thorough": 2000}),
+        Layer("iter-errors", st_iter_errors_case, run_iter_errors_case, {"quick": 400, "thorough": 2500}),
     ],
     assumptions=[
         "time is virtual: perf_counter of lowlevel/_utils.py and the selector are replaced, so only waits inside select() take time (processing time is zero)",
